@@ -131,6 +131,7 @@ func (ld *Loaded) newInterp(ex *Exec) *Interp {
 	i.registerReflect()
 	i.registerVX()
 	i.registerEnv()
+	i.installRedirects(ld.harness)
 	i.initPkgs = map[string]bool{}
 	for _, p := range []string{"errors", "bytes", "strings", "strconv", "unicode", "unicode/utf8", "unicode/utf16", "sort", "slices",
 		"encoding/base64", "encoding", "encoding/json", "io", "math", "math/bits", "cmp", "internal/stringslite", "internal/itoa", "internal/oserror", "io/fs", "path",
